@@ -401,6 +401,52 @@ def order_family(ctx, name):
     ctx.replay(out, name + "-order", seeds=(None, ctx.seed))
 
 
+def int_context_texts():
+    """Integer literals at the limits of the 64-bit range in every kind of context (after a unary / binary
+    minus on the same line, on the next line, after a comment; in parentheses, brackets, ranges): the lexer's
+    decision on a literal must not depend on the tokens or the layout around it."""
+    lits = ["9223372036854775807", "9223372036854775808", "9_223_372_036_854_775_808", "18446744073709551616",
+            "09223372036854775807", "9223372036854775806", "0", "1_0"]
+    pre = ["", "-", "- ", "-\n", "-# c\n", "x - ", "x -\n", "x -# c\n  ", "(", "-(", "x - (", "[", "[-", "9223372036854775800 .. ", "0 .. -",
+           "x = -", "x := ", "x -= ", "x - -", "f(", "f(-", "x[", "x[-", "{\"k\": -", "1 -\n\n", "1 - 2 - ", "-1 -"]
+    out = []
+    for lt in lits:
+        for pfx in pre:
+            close = {"(": ")", "[": "]", "{": "}"}
+            tail = "".join(close[c] for c in reversed([c for c in pfx if c in "([{"]))
+            out.append("print(%s%s%s)\n" % (pfx, lt, tail) if not pfx.startswith("x") else "%s%s%s\n" % (pfx, lt, tail))
+    return sorted(set(out))
+
+
+def int_contexts(ctx, name, prop):
+    import lexcheck as lx
+    texts = int_context_texts()
+    outs, st = lx.spec_lex(texts, name + "ints")
+    ctx.states += st["distinct"]
+    ctx.transitions += st["generated"]
+    ctx.models["SeedLexRun:%sints" % name] = {"module": "SeedLexRun", "texts": len(texts),
+                                              "distinct_states": st["distinct"], "states_generated": st["generated"]}
+    lx.check_texts(ctx, texts, outs, name + "ints", prop)
+    for t in texts:
+        ctx.nontrivial.add("int:" + t)
+
+
+ALL_SCALE = ["range", "objlit", "spreadlit", "chain", "strchain", "shared", "longlist", "longstr", "deep",
+             "manyargs", "manyvars", "manyprops"]
+
+
+def scale_family(ctx, name, families, seeds=None):
+    """MC_Scale: one construct at sizes well above the other models' bounds (an interpreter can
+    behave differently above a size), replayed."""
+    sizes = (9, 33) if ctx.quick else (9, 21, 33, 70, 130)
+    out = ctx.run_model("MC_Scale", "SelectedParams", progof="ScaleProgOf", max_steps=200000,
+                        invariants=["ScaleLaws"], name="MC_Scale_" + name, workers=16,
+                        constants={"Sizes": "= {%s}" % ", ".join(str(n) for n in sizes),
+                                   "Families": "= {%s}" % ", ".join('"%s"' % f for f in families)})
+    cases, _ = ctx.replay(out, name + "-scale", seeds=seeds or (None, ctx.seed))
+    return cases
+
+
 def c07(ctx):
     ctx.rule = ("every nesting (depth 1-2%s) of {bare block, if-true, if-false/else, else-if chain, while, "
                 "for over list/string/object, call} x jump in {none, break, continue, return} x position, "
@@ -422,10 +468,11 @@ def c16(ctx):
                 "user function, builtin) in plain form, + - * / % also in op-assign form on variable / element / "
                 "property; 23 typed contexts x 8 kinds; thorough: the same inside a function. Every cell is "
                 "non-trivial (each exercises one entry of the type table); distinct = distinct cells")
-    out = ctx.run_model("MC_C16", "C16Params" if ctx.quick else "C16ParamsThorough", invariants=["EqNestRule"], workers=16)
+    out = ctx.run_model("MC_C16", "C16Params" if ctx.quick else "C16ParamsThorough", invariants=["EqNestRule", "CtxRule"], workers=16)
     ctx.notes.append("ASSUME TypeTable / TypeNamesOk (operator domain = the table of the property statement; "
                      "diagnostics name operator and both type names in order) checked by TLC at start-up")
     ctx.replay(out, "c16", seeds=(None,) if ctx.quick else (None, ctx.seed, ctx.seed + 1))
+    scale_family(ctx, "c16", ["chain", "strchain"])
     scripts = [s for s in repo_test_scripts() if "runtime_errors" in s[0] or "operations" in s[0]]
     corpus_validate(ctx, scripts, "c16tests")
 
@@ -445,6 +492,7 @@ def c11(ctx):
                         constants={"MaxLen": "= %d" % ml, "MaxChars": "= %d" % mc}, workers=16)
     cases_, _ = ctx.replay(out, "c11", seeds=(None,) if ctx.quick else (None, ctx.seed))
     form_fuzz(ctx, cases_, "c11")
+    scale_family(ctx, "c11", ["longlist", "longstr", "range"])
     scripts = [s for s in repo_test_scripts() if "index" in s[0] or "range" in s[0] or "concat" in s[0]]
     corpus_validate(ctx, scripts, "c11tests")
 
@@ -459,6 +507,7 @@ def c12(ctx):
                         constants={"HistLen": "= %d" % hl})
     cases_, _ = ctx.replay(out, "c12", seeds=(None,) if ctx.quick else (None, ctx.seed))
     form_fuzz(ctx, cases_, "c12")
+    scale_family(ctx, "c12", ["objlit", "spreadlit", "manyprops"])
     order_family(ctx, "c12")
     scripts = [s for s in repo_test_scripts() if "object" in s[0] or "prop" in s[0]]
     corpus_validate(ctx, scripts, "c12tests")
@@ -477,6 +526,7 @@ def c10(ctx):
                      "EqErrNamesTypes, EqAtomKinds, EqFuncsError, NeIsNegation, RefLaws checked by TLC at start-up")
     cases_, _ = ctx.replay(out, "c10", seeds=(None,) if ctx.quick else (None, ctx.seed, ctx.seed + 1))
     form_fuzz(ctx, cases_, "c10")
+    scale_family(ctx, "c10", ["deep", "shared", "objlit"])
     scripts = [s for s in repo_test_scripts() if "equality" in s[0]]
     corpus_validate(ctx, scripts, "c10tests")
 
@@ -492,6 +542,7 @@ def c05(ctx):
                         constants={"HistLen": "= %d" % hl}, max_steps=6000)
     cases_, _ = ctx.replay(out, "c05", seeds=(None,) if ctx.quick else (None, ctx.seed))
     form_fuzz(ctx, cases_, "c05")
+    scale_family(ctx, "c05", ["range", "longlist", "manyprops"])
     scripts = [s for s in repo_test_scripts() if "ref" in s[0] or "mutation" in s[0] or "concatenation" in s[0]]
     corpus_validate(ctx, scripts, "c05tests")
 
@@ -549,8 +600,9 @@ def c04_random_seqs(seed, n):
     """Seeded well-formed token sequences of length 5..9 for MC_C04 (family `random`)."""
     import random
     rnd = random.Random(seed)
-    simple = ["D", "A", "R", "Dy", "Ry", "C", "C1", "S", "Q", "D", "R", "Q", "A", "Dx", "Fr", "G", "Cg"]
-    openers = ["{", "I{", "F{", "L{", "W{"]
+    simple = ["D", "A", "R", "Dy", "Ry", "C", "C1", "S", "Q", "D", "R", "Q", "A", "Dx", "Fr", "G", "Cg",
+              "K", "B", "Sw", "So", "Q", "D"]
+    openers = ["{", "I{", "F{", "L{", "W{", "T{", "T{", "L{", "W{"]
 
     def gen(budget, depth):
         out = []
@@ -590,6 +642,7 @@ def c04(ctx):
                           nontrivial=lambda k, b, o: len(json.loads(k)[1]) >= 2)
     renaming_check(ctx, cases, "c04", {b"x": b"first_var", b"y": b"y2", b"f": b"fun_c", b"d": b"depth0",
                                         b"fs": b"closures", b"g": b"each"})
+    scale_family(ctx, "c04", ["manyvars", "deep"])
     scripts = [s for s in repo_test_scripts()
                if "scope" in s[0] or "closure" in s[0] or "functions" in s[0] or "variables" in s[0]]
     corpus_validate(ctx, scripts, "c04tests")
@@ -607,6 +660,7 @@ def c20(ctx):
                         constants={"SeqLen": "= %d" % sl, "LongLen": "= %d" % (0 if ctx.quick else 4)}, workers=16)
     cases_, _ = ctx.replay(out, "c20", seeds=(None,) if ctx.quick else (None, ctx.seed))
     form_fuzz(ctx, cases_, "c20")
+    scale_family(ctx, "c20", ["manyvars", "manyargs"])
     scripts = [s for s in repo_test_scripts() if "scope" in s[0] or "variables" in s[0] or "runtime_errors" in s[0]]
     corpus_validate(ctx, scripts, "c20tests")
 
@@ -624,6 +678,7 @@ def c13(ctx):
                         constants={"MaxPat": "= %d" % mp, "MaxSrc": "= %d" % ms}, workers=16)
     cases_, _ = ctx.replay(out, "c13", seeds=(None,) if ctx.quick else (None, ctx.seed))
     form_fuzz(ctx, cases_, "c13")
+    scale_family(ctx, "c13", ["longlist", "manyargs", "spreadlit"])
     order_family(ctx, "c13")
     scripts = [s for s in repo_test_scripts()
                if "destruct" in s[0] or "spread" in s[0] or "collect" in s[0] or "params" in s[0]]
@@ -642,6 +697,7 @@ def c14(ctx):
                         props=FRAME_PROPS + ["BuildFresh", "FreshPerEntry"])
     cases_, _ = ctx.replay(out, "c14", seeds=(None, ctx.seed) if ctx.quick else (None, ctx.seed, ctx.seed + 1, ctx.seed + 2))
     form_fuzz(ctx, cases_, "c14", n=600 if ctx.quick else 6000)
+    scale_family(ctx, "c14", ["manyargs", "manyvars"])
     order_family(ctx, "c14")
     scripts = [s for s in repo_test_scripts() if "this" in s[0] or "function" in s[0] or "args" in s[0]]
     corpus_validate(ctx, scripts, "c14tests")
@@ -660,6 +716,7 @@ def c17(ctx):
     out = ctx.run_model("MC_C17", "C17Params", invariants=["C17Laws"], props=["OutputMonotone"],
                         constants={"MaxDepth": "= %d" % md}, workers=16)
     ctx.replay(out, "c17", seeds=(None,) if ctx.quick else (None, ctx.seed))
+    scale_family(ctx, "c17", ["deep", "chain", "strchain", "manyargs"])
     scripts = [s for s in repo_test_scripts() if "error" in s[0] or "stacktrace" in s[0]]
     corpus_validate(ctx, scripts, "c17tests")
 
@@ -678,6 +735,7 @@ def c01(ctx):
                         props=FRAME_PROPS + ["BuildFresh", "FreshPerEntry", "ShadowFrame"], max_steps=4000)
     cases_, _ = ctx.replay(out, "c01", seeds=(None, ctx.seed) if ctx.quick else (None, ctx.seed, ctx.seed + 1))
     form_fuzz(ctx, cases_, "c01", n=500 if ctx.quick else 5000)
+    scale_family(ctx, "c01", ALL_SCALE)
     corpus_validate(ctx, repo_test_scripts(), "c01tests")
     corpus_validate(ctx, doc_examples(), "c01docs")
     corpus_validate(ctx, random_scripts(ctx.seed, 300 if ctx.quick else 3000,
@@ -696,6 +754,7 @@ def c02(ctx):
                 % nm)
     out = ctx.run_model("MC_C02", "C02Params", invariants=["ZeroRule"], props=FRAME_PROPS + ["BuildFresh"])
     ctx.replay(out, "c02", seeds=(None,) if ctx.quick else (None, ctx.seed))
+    scale_family(ctx, "c02", ALL_SCALE, seeds=(None,))
     ms = mutants(repo_test_scripts(), ctx.seed, nm)
     corpus_validate(ctx, ms, "c02mutants")
     corpus_validate(ctx, random_scripts(ctx.seed + 17, 200 if ctx.quick else 3000, err_rate=0.06), "c02random")
@@ -821,6 +880,11 @@ def c19(ctx):
         out17 = ctx.run_model("MC_C17", "C17Params", invariants=["C17Laws"], constants={"MaxDepth": "= 1"},
                               name="MC_C17d1")
         env_matrix(ctx, rp.join_runs(out17), "c19-c17", 4)
+    # big values (one container at several depths) and printing a value while a construct is working on it
+    sc = scale_family(ctx, "c19", ["shared", "objlit", "spreadlit", "longlist", "longstr", "deep", "manyprops"])
+    env_matrix(ctx, sc, "c19-scale", 2)
+    outp = ctx.run_model("MC_C02", "C02PrintParams", props=FRAME_PROPS, name="MC_C02print")
+    ctx.replay(outp, "c19-printduring", seeds=(None, ctx.seed))
     scripts = [s for s in repo_test_scripts() if "print" in s[0] or "values" in s[0]]
     corpus_validate(ctx, scripts, "c19tests")
 
@@ -894,6 +958,7 @@ def c03(ctx):
     lx.check_texts(ctx, corpus, outs, "c03corpus", "C03")
     for t in corpus:
         ctx.nontrivial.add(t)
+    int_contexts(ctx, "c03", "C03")
     # non-UTF-8 content and an empty file: read error / success, never a crash
     plain = sv.build(False)
     d = sv.scratch("c03bytes")
@@ -953,6 +1018,8 @@ def c09(ctx):
         ctx.nontrivial.add("layout:" + t)
     for o in specs[:: max(1, len(specs) // 3)][:3]:
         ctx.sample({"text": lx.text_of(o["src"]), "tokens": [t["k"] for t in o["toks"]]})
+    # the lexer's decision on a literal does not depend on the line layout around it
+    int_contexts(ctx, "c09", "C09")
     opts = {"hex_prob": 0.3, "underscore_prob": 0.5, "extra_parens": 0.15, "wild": 0.5}
     seeds = tuple(ctx.seed * 100 + i for i in range(nseeds))
     out1 = ctx.run_model("MC_C01", "C01ParamsTiny" if ctx.quick else "C01Params", max_steps=4000)
@@ -1083,6 +1150,10 @@ def c18(ctx):
     ctx.models["SeedLexRun:c18texts"] = {"module": "SeedLexRun", "texts": len(texts),
                                          "distinct_states": st["distinct"], "states_generated": st["generated"]}
     lx.check_texts(ctx, texts, outs, "c18texts", "C18")
+    # (e) literals with multi-byte text before other tokens of the line; long chains / deep calls
+    out15 = ctx.run_model("MC_C15", "C15Params", invariants=["C15Laws"], constants={"MaxSlots": "= 1"}, name="MC_C15pos")
+    ctx.replay(out15, "c18-c15", seeds=seeds[:2], render_opts={"wild": 0.6})
+    scale_family(ctx, "c18", ["chain", "strchain", "deep", "manyargs", "longstr"], seeds=seeds[:2])
     # (d) planted syntax / lexical errors
     planted_errors(ctx, cases[:: (4 if ctx.quick else 1)], "c18", seeds[: (2 if ctx.quick else 4)])
 
@@ -1230,6 +1301,8 @@ def c08(ctx):
     # evaluated: the grouping the parser produced is the grouping that is evaluated
     oute = ctx.run_model("MC_C08E", "C08EParams", progof="C08EProgOf")
     ctx.replay(oute, "c08e", seeds=(None, ctx.seed), render_opts={"extra_parens": 0.3})
+    # a sign is not a binary minus: integer literals at the 64-bit limits in every operator context
+    int_contexts(ctx, "c08", "C08")
     scripts = [s for s in repo_test_scripts() if "precedence" in s[0] or "operations" in s[0]]
     corpus_validate(ctx, scripts, "c08tests")
 
@@ -1282,6 +1355,8 @@ def c06(ctx):
     # (1) the laws at 8 bits, and BigInt itself
     ctx.run_model("MC_Arith", "ArithParams", invariants=["ArithLaws"], minint="Arith8Min", maxint="Arith8Max",
                   progof="ArithProgOf")
+    int_contexts(ctx, "c06", "C06")
+    scale_family(ctx, "c06", ["range", "chain"])
     ctx.notes.append("ASSUME DivMod, RemSign, TruncToZero, MulFitsOk, ResultRule, OrderRule over all 65 536 8-bit "
                      "pairs; MC_BigInt ASSUMEs (BigInt = native arithmetic on values straddling limb boundaries)")
     cfg = os.path.join(sv.SPEC, "MC_BigInt.cfg")
